@@ -10,7 +10,7 @@ import tempfile
 import numpy as np
 
 from vlib.coherence import Shadow, gen_ops
-from vlib.common import CaseResult, exc_mech, rng_for, struct_hash
+from vlib.common import CaseResult, exc_mech, off, rng_for, struct_hash
 from vlib.gengraph import Program, gen_program, sane
 
 ID = "C15"
@@ -487,7 +487,7 @@ def failed_copy_scenario(res, rng):
                 pass
         # still propagating
         a.value = jnp.asarray(float(rng.integers(2, 9)), jnp.float32)
-        if abs(float(d.value) - (2.0 * float(a.value) + 1.0)) > 1e-6 or d.outdated:
+        if off(float(d.value), 2.0 * float(a.value) + 1.0, 1e-6) or d.outdated:
             res.violation("incoherent-after-failed-copy", f"after a failed {label}: assignment no longer propagates (d={d.value})",
                           {"attempt": label})
             return
